@@ -34,7 +34,10 @@ class EvalMixin(object):
         """Implicit exception `exc` is raised unless `goal`. If the contract allows exc, fork is not
         modelled: the path simply continues under the assumption (allowed exceptions end the run with a
         permitted outcome).  Otherwise it is an obligation."""
-        if exc not in self.raises_ok:
+        if self.in_contract:
+            # contract expressions must be well defined on their own: never covered by the unit's raises clause
+            self.oblige(st, "spec-welldefined-" + exc, goal, node, note)
+        elif exc not in self.raises_ok:
             self.oblige(st, "safety-" + exc, goal, node, note)
         st.assume(goal)
 
